@@ -44,7 +44,7 @@ for prop in sorted(os.listdir(inc)):
                 shutil.copy(extra, d + "/demo.sh")
             m = json.load(open(f"{inc}/{prop}/meta{n}.json"))
             json.dump({"property": prop, "breaks": m.get("summary"), "needs_to_manifest": m.get("needs"),
-                       "author": "fresh sub-agent (second round: asked for subtle changes) given only the property text and a scratch worktree",
+                       "author": os.environ.get("SEED_AUTHOR", "fresh sub-agent given only the property text and a scratch worktree"),
                        "author_ran": m.get("ran"), "rebased_on_fix_commits": False,
                        "confirmed_by_me": dict(r, tree="/repo HEAD in scratch worktree " + WT,
                                                commands=["git apply patch.diff", "cargo test --offline", "cp demo.rs tests/demoX.rs && cargo test --offline --test demoX", "git checkout -- src && cargo test --offline --test demoX"])},
